@@ -577,7 +577,7 @@ func RunHistory(rt *rapid.T, b *vx.B, o Opts) *Result {
 	pstates := []ring.PartitionState{ring.PartitionPending, ring.PartitionActive, ring.PartitionInactive}
 
 	kinds := []string{"burst", "burst", "deliver", "deliver", "deliver", "deliver", "gossip", "gossip", "gossip", "unregister", "unregister", "pushpull", "register", "register", "heartbeat", "heartbeat",
-		"removeOwner", "removePartition", "addPartition", "partitionState", "addOwner", "partitionLock", "advance", "read", "watch", "replace", "cleanup", "lockRace"}
+		"removeOwner", "removePartition", "addPartition", "partitionState", "addOwner", "partitionLock", "advance", "read", "watch", "watch", "unwatch", "replace", "cleanup", "lockRace"}
 	if o.Faults {
 		kinds = append(kinds, "drop", "drop", "restart", "partition", "corrupt", "gossipLimited", "heal")
 	}
@@ -1056,6 +1056,19 @@ func RunHistory(rt *rapid.T, b *vx.B, o Opts) *Result {
 			if want := VisibleOf(r, p); vis != want {
 				e.failf("read on node %d returned %s, the store without tombstones is %s", node, vis, want)
 			}
+		case "unwatch":
+			// one of several watchers of this node ends (not the one registered last, if there is a choice):
+			// the others go on being told about every change
+			var live []*Watch
+			for _, w := range c.Watches {
+				if w.Node == node && w.Epoch == c.Epoch[node] && !w.Ended {
+					live = append(live, w)
+				}
+			}
+			if len(live) < 2 {
+				continue
+			}
+			c.EndWatch(live[rapid.IntRange(0, len(live)-2).Draw(rt, "endedWatcher")])
 		case "watch":
 			var w *Watch
 			switch rapid.IntRange(0, 2).Draw(rt, "watchKind") {
@@ -1254,8 +1267,8 @@ func (e *engine) flow() {
 	finalP := model.ClonePDesc(wantP)
 	finalP.RemoveTombstones(time.Time{})
 	for _, w := range c.Watches {
-		if w.Epoch != c.Epoch[w.Node] || c.Changes[w.Node] == w.ChangeAt {
-			continue // its node was restarted, or nothing changed since it was registered
+		if w.Ended || w.Epoch != c.Epoch[w.Node] || c.Changes[w.Node] == w.ChangeAt {
+			continue // it was ended, its node was restarted, or nothing changed since it was registered
 		}
 		last, calls, tomb := w.Snapshot()
 		if tomb != "" {
